@@ -564,3 +564,61 @@ Section Composite.
     destruct s1; try reflexivity. discriminate.
   Qed.
 End Composite.
+
+(* ================================================================================================
+   The update methods of the series transformers that C10 anchors, regenerated from
+   sktime/transformations/series/detrend/_detrend.py and _deseasonalize.py by
+   translator/transupdate_c10.py (Section TransformerUpdates of Site.v).  A Detrender keeps its fitted
+   trend in a nested forecaster; the property's sentence "with parameter updating disabled the
+   fitted parameters stay those of the last fit" holds for it exactly when update hands the SAME
+   data and the SAME flag to that forecaster's update. *)
+Section TransformerUpdates.
+  Variable N : Type.
+  Variable N_update : N -> series -> bool -> N * bool.
+  Variable D : Type.
+
+  (* Detrender.update(Z, X, update_params) IS forecaster_.update(Z, X, update_params) *)
+  Theorem bridge_detrender_update n z up :
+    gen_detrender_update N N_update n z up = N_update n z up.
+  Proof.
+    unfold gen_detrender_update. cbv zeta. destruct (N_update n z up) as [n' ok].
+    destruct ok; reflexivity.
+  Qed.
+
+  (* Deseasonalizer.update leaves the fitted seasonal component alone, whatever the flag *)
+  Theorem bridge_deseasonalizer_update (d : D) z up :
+    gen_deseasonalizer_update D d z up = (d, true).
+  Proof. reflexivity. Qed.
+
+  (* ConditionalDeseasonalizer has no update of its own: it inherits the one above *)
+  Theorem bridge_conditional_deseasonalizer_inherits_update :
+    gen_conditional_deseasonalizer_inherits_update = true.
+  Proof. reflexivity. Qed.
+End TransformerUpdates.
+
+(* ... hence, with the nested forecaster a leaf whose update is the regenerated
+   _SktimeForecaster.update: Detrender.update(y, update_params=False) keeps the trend parameters
+   of the last fit, merges the data and moves the nested cutoff to the end of y; with
+   update_params=True it leaves the nested forecaster in the state of a fresh fit on the union *)
+Theorem site_detrender_update_no_param :
+  forall (leaf lpar : Type) (lfit : leaf -> series -> lpar) (ldefwl : leaf -> lpar -> Z) (l : leaf)
+         (s : fstate lpar) (y : series),
+    y <> [] ->
+    let r := gen_detrender_update (fstate lpar) (G_update leaf lpar lfit ldefwl l) s y false in
+    snd r = true /\ fpar lpar (fst r) = fpar lpar s /\ ffh lpar (fst r) = ffh lpar s /\
+    fmem lpar (fst r) = cfirst y (fmem lpar s) /\ fcut lpar (fst r) = last_time y.
+Proof.
+  intros leaf lpar lfit ldefwl l s y H. cbv zeta. rewrite bridge_detrender_update.
+  destruct (site_no_param_update leaf lpar lfit (fun _ _ _ _ _ => 0%Q) ldefwl l s y H)
+    as (A & B & C & E & F).
+  repeat split; assumption.
+Qed.
+
+Theorem site_detrender_update_refit :
+  forall (leaf lpar : Type) (lfit : leaf -> series -> lpar) (ldefwl : leaf -> lpar -> Z) (l : leaf)
+         (s : fstate lpar) (y : series),
+    gen_detrender_update (fstate lpar) (G_update leaf lpar lfit ldefwl l) s y true =
+    (fit_state leaf lpar lfit l (cfirst y (fmem lpar s)) (ffh lpar s), true).
+Proof.
+  intros. rewrite bridge_detrender_update. apply site_refit_on_update_equals_fresh_fit.
+Qed.
